@@ -44,6 +44,9 @@ def tasks(tier, seed):
                     if tier == 'quick' and d == 2 and K not in (1, 3):
                         continue
                     T.append({'name': 'cost o%d d%d N%d K%d' % (o, d, N, K), 'order': o, 'dim': d, 'N': N, 'K': K, 'kind': 'ident', 'flags': c['flags'], 'seed': seed, 'timeout': 60})
+        for N in (2, 3):
+            # the same cost / sample-argument obligations when the segments are processed in DESCENDING order (first call on the fresh optimizer)
+            T.append({'name': 'cost reversed-executor o%d d1 N%d K2' % (o, N), 'order': o, 'dim': 1, 'N': N, 'K': 2, 'kind': 'ident', 'flags': c['flags'][:2], 'ex': 'perm %d %s' % (N, ' '.join(str(i) for i in reversed(range(N)))), 'seed': seed, 'timeout': 60})
         if c['K64']:
             T.append({'name': 'cost o%d d1 N1 K64' % o, 'order': o, 'dim': 1, 'N': 1, 'K': 64, 'kind': 'ident', 'flags': c['flags'][:2], 'seed': seed, 'timeout': 60})
         for N in (1, 2):
@@ -157,7 +160,7 @@ def run_task(t):
             combos.append((m, sign, rho_mode, costs))
     for (m, sign, rho_mode, costs) in combos:
         fl = X.flags_from_int(m)
-        ev = X.EvalSetup(o, d, N, K, fl, kind, rho_mode, t['seed'], sign, costs=costs, key='C08')
+        ev = X.EvalSetup(o, d, N, K, fl, kind, rho_mode, t['seed'], sign, costs=costs, key='C08', ex=t.get('ex', 'serial'))
         out += check_eval(ID, '%s flags=%s tau%s rho-%s %s' % (t['name'], X.flags_str(fl), '+' if sign > 0 else '-', rho_mode, costs), ev, sign, t['timeout'])
     return out
 
